@@ -1426,7 +1426,7 @@ bool WFXMLScanner::scanStartTagNS(bool& gotData)
         // which have been bound to namespace names that are identical. 
         XMLAttr* loopAttr;
         XMLAttr* curAtt;
-        for (unsigned int attrIndex=0; attrIndex < attCount-1; attrIndex++) {
+        for (unsigned int attrIndex=0; attrIndex < attCount; attrIndex++) {
             loopAttr = fAttrList->elementAt(attrIndex);
 
             if (!toUseHashTable)
